@@ -9,6 +9,7 @@ import (
 	"github.com/resgateio/resgate/server/rescache"
 	"github.com/resgateio/resgate/server/reserr"
 	"github.com/resgateio/resgate/server/rpc"
+	"github.com/resgateio/resgate/server/verifhook"
 )
 
 type subscriptionState byte
@@ -199,6 +200,9 @@ func (s *Subscription) Loaded(resourceSub *rescache.ResourceSubscription, err er
 			return
 		}
 
+		if verifhook.Enabled && s.resourceSub != nil {
+			verifhook.Site("loaded.twice", s.c.CID(), s.rid)
+		}
 		s.resourceSub = resourceSub
 		s.typ = resourceSub.GetResourceType()
 		s.state = stateLoaded
@@ -530,6 +534,7 @@ func (s *Subscription) addReference(rid string) (*Subscription, error) {
 		refs[rid] = ref
 	} else {
 		ref.count++
+		verifhook.Site("ref.dup", s.c.CID(), s.rid)
 	}
 
 	return ref.sub, nil
@@ -803,6 +808,14 @@ func (s *Subscription) Dispose() {
 	}
 
 	state := s.state
+	if verifhook.Enabled {
+		if len(s.readyCallbacks)+len(s.accessCallbacks) > 0 {
+			verifhook.Site("dispose.pending", s.c.CID(), s.rid)
+		}
+		if state == stateSent && len(s.refs) > 0 {
+			verifhook.Site("dispose.sent", s.c.CID(), s.rid)
+		}
+	}
 	s.state = stateDisposed
 	s.readyCallbacks = nil
 	s.eventQueue = nil
@@ -822,6 +835,7 @@ func (s *Subscription) Dispose() {
 // a subscription has indirect references, but has reached 0 indirectsent
 // references.
 func (s *Subscription) Unsend() {
+	verifhook.Site("unsend", s.c.CID(), s.rid)
 	s.state = stateReady
 	s.indirectsent = 0
 
@@ -859,6 +873,7 @@ func (s *Subscription) reaccess(t *rescache.Throttle) {
 	}
 
 	if s.queueFlag != 0 {
+		verifhook.Site("reaccess.deferred", s.c.CID(), s.rid)
 		s.flags |= flagReaccess
 		return
 	}
